@@ -1,6 +1,9 @@
 (* Props/C17.v — property C17: a circuit value is safe to share between
    goroutines.  Model: Circuit/Pool.v (any number of goroutines running any
-   programs of Garble / Release / Eval / Compute calls on one circuit; one
+   programs of Garble / FAILING Garble (at any of the four error sites of
+   Circuit.Garble: R, cipher, an input-wire label, a gate — the scratch goes
+   back to the pool once and no handle is returned) / Release / Eval / Compute
+   calls on one circuit; one
    atomic step per Go statement touching shared state; sync.Pool may hand out
    any pooled scratch or a new one and may drop scratches at any time).
    Every theorem quantifies over ALL programs [progs] (histories), ALL
@@ -106,3 +109,20 @@ Theorem C17_linearizable_eval :
     t_res (s_thr st' t) = REval (h_gid (t_h (s_thr st t) hi)) :: t_res (s_thr st t).
 Proof. exact eval_result. Qed.
 Print Assumptions C17_linearizable_eval.
+
+(* REGRESSION RECORD.  In the variant of the model in which the error returns
+   inside Garble's two loops put the scratch back TWICE (explicit Put plus a
+   deferred cleanup), one failed Garble followed by two overlapping garblings
+   refutes C17_exclusive and C17_valid_until_release: two live handles share a
+   scratch, the first handle's buffers hold the second garbling, and the pool
+   held the scratch twice.  (harness c17 exercises these histories on the
+   implementation.) *)
+Theorem C17_double_put_refuted :
+  let st := run_from (init_cfg true dput_progs) dput_sched in
+  live (s_thr st 0) 0 = true /\ live (s_thr st 1) 0 = true /\
+  h_scr (t_h (s_thr st 0) 0) = h_scr (t_h (s_thr st 1) 0) /\
+  s_contents st (h_scr (t_h (s_thr st 0) 0)) <> h_gid (t_h (s_thr st 0) 0) /\
+  exclusive 2 st = false /\
+  s_pool (run_from (init_cfg true dput_progs) (firstn 4 dput_sched)) 0 = [0; 0].
+Proof. exact double_put_refuted. Qed.
+Print Assumptions C17_double_put_refuted.
